@@ -3,6 +3,8 @@
 # Applies a proposed fix to /repo, runs the pinned test suite on a guard-off build of the working tree,
 # commits it as one unguarded "fix:" commit when the 10 tests pass, reverts it otherwise.
 set -e
+# one fixer at a time: the patch is applied to /repo's working tree while the baseline runs
+exec 9>/var/tmp/applyfix.lock; flock 9
 D="$1"; M="$2"
 cd /repo
 git apply --check "$D" || { echo "DOES-NOT-APPLY $D"; exit 3; }
